@@ -7,7 +7,7 @@ from . import common, c15
 
 LEVEL = "other"
 EXPLANATION = (
-    "Three necessary conditions of `running a core program prints what the semantics prescribe, "
+    "Necessary conditions of `running a core program prints what the semantics prescribe, "
     "as a function of program text and input alone`: (R1) dispatch identity - the operator of a "
     "source expression reaches the arithmetic that implements it through hand-written tables "
     "(Operator->Instruction, CASE IS->Instruction, Instruction->handler, handler->Variant method, "
@@ -15,7 +15,9 @@ EXPLANATION = (
     "name; (R2) no statement block is emitted twice; (R3) no source of nondeterminism (time, random, "
     "environment, threads, hash-map iteration order) is reachable from parse/lint/generate/interpret "
     "outside the program's own I/O built-ins; (R4) every value stored into a variable or used as a FOR "
-    "limit is converted to the target's type first (shared with C06.R2).")
+    "limit is converted to the target's type first (shared with C06.R2); (R5) the VM's PRINT state "
+    "is statement-scoped: every PrintState field a per-item operation modifies is written again by "
+    "reset() or print_end().")
 NOT_DECIDED = ["agreement of printed output with the reference semantics for every program and value"]
 
 # operator name -> Ordering values for which the comparison holds
@@ -219,6 +221,54 @@ def _iterator_consumer(fn, t):
     return None
 
 
+def _fields_touched(body):
+    """fields assigned or mutably borrowed in the body"""
+    out = set(common.field_writes(body))
+    for b, blk in enumerate(body.blocks):
+        if blk.get("c"):
+            continue
+        for st in blk["s"]:
+            r = st.get("r", {})
+            if st["k"] == "assign" and r.get("k") in ("ref", "rawptr") and r.get("mut"):
+                for e in r["p"][1]:
+                    if isinstance(e, dict) and "n" in e:
+                        out.add(e["n"])
+    return out
+
+
+def r5_print_state_is_statement_scoped(ctx, rule="C01.R5"):
+    """PrintState is the VM's state of the PRINT statement being executed.  Every field that the
+    per-item operations (comma, semicolon, value, format string ...) modify is re-initialised at a
+    statement boundary - in reset() (run when the next PRINT selects its printer) or in print_end() -
+    so that one PRINT statement cannot change how the next one prints."""
+    prog = ctx.prog
+    ms = {f.name: f for f in prog.methods_of("PrintState") if f.kind != "closure"}
+    for need in ("reset", "print_end", "set_printer_type"):
+        if need not in ms:
+            raise CheckError("anchor PrintState::%s" % need)
+    calls_reset = any(mir.callee_of(t) == ms["reset"].id for _b, t in ms["set_printer_type"].body.calls())
+    ctx.decide(calls_reset, rule, rule + ":set_printer_type-resets", ms["set_printer_type"].loc,
+               "selecting the printer starts from a reset state",
+               "PrintState::set_printer_type no longer calls reset(): the previous PRINT's format string / "
+               "file handle stay in force")
+    reinit = _fields_touched(ms["reset"].body) | _fields_touched(ms["print_end"].body)
+    touched = {}
+    for name, f in ms.items():
+        if name in ("new", "reset", "print_end"):
+            continue
+        for fld in _fields_touched(f.body):
+            touched.setdefault(fld, []).append(name)
+    if len(touched) < 4:
+        raise CheckError("PrintState: only %d fields recognised as modified" % len(touched))
+    for fld in sorted(touched):
+        ctx.decide(fld in reinit, rule, "%s:PrintState.%s:reinitialised-at-statement-boundary" % (rule, fld),
+                   ms["print_end"].loc, "written by reset() or print_end()",
+                   "PrintState.%s is modified by %s but neither reset() nor print_end() writes it: its value "
+                   "leaks from one PRINT statement into the next (e.g. a trailing `;` suppressing the line "
+                   "break of a later bare PRINT)" % (fld, sorted(touched[fld])))
+    ctx.require(rule, 5)
+
+
 def run(ctx):
     common.install(ctx)
     r1_dispatch(ctx)
@@ -226,3 +276,4 @@ def run(ctx):
     r3_determinism(ctx)
     from . import c06
     c06.r2_store_routes(ctx, "C01.R4")
+    r5_print_state_is_statement_scoped(ctx)
